@@ -116,6 +116,9 @@ fn main() {
         let line = line.unwrap();
         let reply = run_line(prop, &line);
         writeln!(out, "{}", reply).unwrap();
+        // one flush per reply: when the process dies (stack overflow, abort) or hangs, the number of replies
+        // written tells ./check which request it was
+        out.flush().unwrap();
       }
     }
     _ => std::process::exit(2),
